@@ -108,3 +108,34 @@ Example C17_demo_inv_b :
   inv_b (run init (firstn 11 c17_demo)) = true /\ inv_b (run init c17_demo) = true /\
   inv_b (with_files (run init (firstn 11 c17_demo)) (files1 (run init (firstn 11 c17_demo))) []) = false.
 Proof. vm_compute. repeat split. Qed.
+
+(* ---------------------------------------------------------------------------------------------
+   Tie to the code by translation + proof: the PostProof handler (with Prove / SetProven / ResetChunkWithProof) and
+   the reward block's per-prover step are GENERATED on every run from /repo's current Go source
+   (translator/gen_gofuncs.go -> Gen/GoWindows.v); the model of these theorems follows the generated code. *)
+From Coq Require Import String.
+From JK Require Import Base.Dec Base.GoSem Gen.GoWindows Proofs.GoTieWindows Proofs.GoTiePostProof.
+
+(* a prover is added to a file's list only by a PostProof that found room (fewer listed keys than seats), named the
+   newcomer's challenge and verified; the generated handler and the model agree on exactly when *)
+Theorem C17_code_tie_PostProof :
+  forall found nproofs maxp getprover_ok listed to_prove challenge start pi h last size chunk draw verified,
+    small h -> small start -> int64_min < size <= int64_max ->
+    gen_PostProof found nproofs maxp getprover_ok listed to_prove challenge start pi h last size chunk draw verified
+    = postproof_spec found nproofs maxp getprover_ok listed to_prove challenge pi h size chunk draw verified.
+Proof. exact gen_PostProof_spec. Qed.
+Print Assumptions C17_code_tie_PostProof.
+
+Theorem C17_code_tie_model_post_proof_follows :
+  forall s creator merkle owner start height to_prove verified new_chunk chunk_size size draw,
+    let fo := get_file s (merkle, owner, start) in
+    let nproofs := match fo with Some f => len f | None => 0 end in
+    let maxp := match fo with Some f => f_max f | None => 0 end in
+    let gp := match fo with Some f => get_prover s f creator | None => None end in
+    let listed := match fo with Some f => contains_prover f creator | None => false end in
+    let pi := match fo with Some f => f_interval f | None => 0 end in
+    let chal := if (nproofs =? maxp) || listed then match gp with Some p => p_chunk p | None => 0 end else 0 in
+    let model := post_proof s creator merkle owner start height to_prove verified new_chunk chunk_size in
+    model = pp_verdict s (postproof_spec (GoTiePostProof.is_some fo) nproofs maxp (GoTiePostProof.is_some gp) listed to_prove chal pi height size chunk_size draw verified) model.
+Proof. exact storagefiles_post_proof_follows. Qed.
+Print Assumptions C17_code_tie_model_post_proof_follows.
